@@ -100,7 +100,6 @@ package mqtt
 //@ func (*RetryClient).Connect
 //@   mode int
 //@   props C09 C17
-//@   ovfwrap
 //@   requires c != nil && ctx != nil && len(clientID) <= 0xFFFF
 //@   requires forall(0, len(opts), func(i int) bool { return opts[i] != nil })
 //@   note protocol of the Retryer interface: SetClient (with a client that has a transport) is called before Connect
@@ -327,7 +326,6 @@ package mqtt
 //@ func (*RetryClient).Retry$1
 //@   mode int
 //@   props C01 C02 C03 C12 C18
-//@   ovfwrap
 //@   requires c != nil && cli != nil && ctx != nil
 //@   requires forall(0, len(c.retryQueue), func(i int) bool { return c.retryQueue[i] != nil })
 //@   assigns c.retryQueue; c.newRetryByError; c.subEstablished; (c.subEstablished)[*]; any Message.ID; any Message.Dup; any BaseClient.idLast; any Message.QoS
